@@ -273,7 +273,21 @@ pub fn write_wdl(f: &WdlFile, v: u8, what: &str) -> Result<Vec<u8>, Fail> {
     if let Err(e) = r {
         vfail!(format!("wdl-write-error:{what}"), "WdlParser::write ({what}) failed: {e}");
     }
-    Ok(cur.into_inner())
+    let fresh = cur.into_inner();
+    // the same file written over the start of a sink that already holds a longer one
+    let mut cur = Cursor::new(vec![0xEEu8; fresh.len() + 1500]);
+    let r = guard("WdlParser::write(reused sink)", || WdlParser::with_version(VERSIONS[v as usize]).write(&mut cur, f))?;
+    let pos = cur.position() as usize;
+    let buf = cur.into_inner();
+    if r.is_err() || pos != fresh.len() || buf[..pos.min(buf.len())] != fresh[..] {
+        vfail!(
+            "wdl-write-depends-on-what-the-sink-held",
+            "WdlParser::write ({what}) into a sink holding {} older bytes leaves the stream at {pos} / differs from the {}-byte file written into an empty sink",
+            fresh.len() + 1500,
+            fresh.len()
+        );
+    }
+    Ok(fresh)
 }
 
 pub fn parse_wdl(bytes: &[u8], parser: &WdlParser, what: &str) -> Result<WdlFile, Fail> {
